@@ -3,12 +3,12 @@ package rules
 // T-DISPATCH, T-KIND, T-ENDIAN, R-REFLKIND for the NBT codec (C01, C02, C03, C04, C17).
 
 import (
-	"os"
 	"fmt"
 	"go/ast"
 	"go/constant"
 	"go/token"
 	"go/types"
+	"os"
 	"sort"
 	"strings"
 
